@@ -5,6 +5,7 @@ import (
 	"encoding/binary"
 	"fmt"
 	"io"
+	"math"
 
 	"reduction.dev/reduction-protocol/handlerpb"
 	"reduction.dev/reduction/dkv"
@@ -51,6 +52,15 @@ func (s *KeyedStateStore) GetState(key []byte) ([]*handlerpb.StateEntryNamespace
 }
 
 func (s *KeyedStateStore) ApplyMutations(subjectKey []byte, mutations []*handlerpb.StateMutationNamespace) error {
+	// The namespace length is stored in a single byte of the DKV key. Reject
+	// longer namespaces before writing anything: a wrapped length would be
+	// decoded as a different namespace and entry key.
+	for _, namespace := range mutations {
+		if len(namespace.Namespace) > math.MaxUint8 {
+			return fmt.Errorf("state namespace is %d bytes long, the limit is %d", len(namespace.Namespace), math.MaxUint8)
+		}
+	}
+
 	for _, namespace := range mutations {
 		for _, mutation := range namespace.Mutations {
 			switch mutation.GetMutation().(type) {
